@@ -22,17 +22,16 @@ Section Contract.
   Variable step : S -> reader -> tkind * S * reader.
   (** what is known about (state, reader) whenever the loop calls the step *)
   Variable Inv : S -> reader -> Prop.
+  (** a property of the kinds the step reports (e.g. "not a kind the parser drops") *)
+  Variable Pk : tkind -> Prop.
 
-  (** The step contract: the step first forgets the previous token ([reset_buff]), then moves some characters
-      [cs] of the unread text into the buffer — at least one unless the reader is exhausted — and reports
-      [TkEof] only when the reader is exhausted. *)
+  (** The step contract, for the calls the loop makes (reader not exhausted): the step first forgets the previous
+      token ([reset_buff]), then moves at least one character [cs] of the unread text into the buffer, and does not
+      report [TkEof]. *)
   Definition step_contract : Prop :=
-    forall st r, reader_wf r -> Inv st r ->
+    forall st r, reader_wf r -> is_eof r = false -> Inv st r ->
       let '(k, st', r') := step st r in
-      exists cs, moved (reset_buff r) r' cs /\
-                 (is_eof r = false -> cs <> []) /\
-                 (k = TK_TkEof -> is_eof r = true) /\
-                 (is_eof r' = false -> Inv st' r').
+      exists cs, moved (reset_buff r) r' cs /\ cs <> [] /\ k <> TK_TkEof /\ Pk k /\ (is_eof r' = false -> Inv st' r').
 
   Hypothesis Hstep : step_contract.
 
@@ -45,24 +44,25 @@ Section Contract.
 
   Lemma tok_loop_spec : forall fuel t st r acc,
     (length (r_rest r) < fuel)%nat -> covers t r acc -> (is_eof r = false -> Inv st r) ->
+    Forall (fun x => Pk (fst x)) acc ->
     let '(toks, r', ex) := tok_loop S step fuel st r acc in
-    ex = true /\ tiles toks 0 (bytes t) /\ concat_slices t toks = Some t.
+    ex = true /\ tiles toks 0 (bytes t) /\ concat_slices t toks = Some t /\ Forall (fun x => Pk (fst x)) toks.
   Proof.
-    induction fuel as [|f IH]; intros t st r acc Hf Hc Hinv; [lia|].
+    induction fuel as [|f IH]; intros t st r acc Hf Hc Hinv Hacc; [lia|].
     cbn [tok_loop]. destruct (is_eof r) eqn:Heof.
     - destruct Hc as (done & cur & Ht & Hd & Hcu & Hs & Hwf & Hti & Hco).
       apply (wf_eof_iff r Hwf) in Heof. rewrite Heof in Ht. rewrite app_nil_r in Ht.
       split; [reflexivity|]. split.
       + replace (bytes t) with (r_pos r + r_len r) by (rewrite Ht, bytes_app; lia). exact Hti.
-      + rewrite <- Ht in Hco. exact Hco.
+      + split; [rewrite <- Ht in Hco; exact Hco|exact Hacc].
     - destruct Hc as (done & cur & Ht & Hd & Hcu & Hs & Hwf & Hti & Hco).
-      specialize (Hstep st r Hwf (Hinv eq_refl)).
+      specialize (Hstep st r Hwf Heof (Hinv eq_refl)).
       destruct (step st r) as [[k st'] r'].
-      destruct Hstep as (cs & Hmv & Hprog & Hkeof & Hinv').
-      destruct (N.eqb_spec k TK_TkEof) as [Ek|Ek]; [specialize (Hkeof Ek); congruence|].
+      destruct Hstep as (cs & Hmv & Hprog & Hkeof & Hpk & Hinv').
+      destruct (N.eqb_spec k TK_TkEof) as [Ek|Ek]; [congruence|].
       destruct Hmv as (M1 & M2 & M3 & M4 & M5 & M6). cbn [reset_buff r_rest r_len r_pos r_total r_start] in *.
       apply IH.
-      + specialize (Hprog Heof). rewrite M1, app_length in Hf. destruct cs; [congruence|cbn in Hf; lia].
+      + rewrite M1, app_length in Hf. destruct cs; [congruence|cbn in Hf; lia].
       + exists (done ++ cur), cs. unfold current_range.
         repeat split.
         * rewrite Ht, M1, <- app_assoc. reflexivity.
@@ -78,15 +78,16 @@ Section Contract.
           rewrite Ht, M1. rewrite app_assoc.
           rewrite (slice_app (done ++ cur) cs (r_rest r') _ _ eq_refl eq_refl). rewrite app_nil_r. reflexivity.
       + exact Hinv'.
+      + apply Forall_app. split; [exact Hacc|]. constructor; [exact Hpk|constructor].
   Qed.
 
   (** lex_tiles *)
   Lemma lex_tiles : forall t normal st0,
-    (forall r cs, moved (reader_new t) r cs -> is_eof r = false -> Inv st0 r) ->
+    (forall r cs, moved (reader_new t) r cs -> is_eof r = false -> Inv st0 r) -> Pk TK_TkShebang ->
     let '(toks, r', ex) := tokenize S step normal st0 t in
-    ex = true /\ tiles toks 0 (bytes t) /\ concat_slices t toks = Some t.
+    ex = true /\ tiles toks 0 (bytes t) /\ concat_slices t toks = Some t /\ Forall (fun x => Pk (fst x)) toks.
   Proof.
-    intros t normal st0 Hinit. unfold tokenize, tokenize_from.
+    intros t normal st0 Hinit Hsheb. unfold tokenize, tokenize_from.
     pose proof (reader_new_wf t 0) as Hwf0. fold (reader_new t) in Hwf0.
     destruct (normal && (current_char (reader_new t) =? 35)).
     - destruct (eat_while_moved not_newline (reader_new t) Hwf0) as (cs & Hmv).
@@ -104,9 +105,11 @@ Section Contract.
             apply slice_app; cbn [bytes]; lia. }
           rewrite Hsl, app_nil_r. reflexivity.
       + intros He. eapply Hinit; eauto.
+      + constructor; [exact Hsheb|constructor].
     - apply tok_loop_spec.
       + cbn. lia.
       + exists [], []. cbn. repeat split; reflexivity.
       + intros He. eapply Hinit; [apply moved_refl; exact Hwf0|exact He].
+      + constructor.
   Qed.
 End Contract.
